@@ -38,7 +38,8 @@ func (a *An) c14Sender() {
 	}
 	// helpers
 	for name, want := range map[string]string{"fragmentStart": "($i * $fraglen)", "fragmentEnd": "min((($i + 1) * $fraglen), $l)"} {
-		if f := a.MustFn(name); f != nil {
+		// (written out in fragmentData instead of named: the rule on fragmentData below reads the same either way)
+		if f, ok := a.C.Fn(name); ok {
 			for _, r := range a.returnsOf(f) {
 				a.TermIs(rule, name+"|formula", name, r, r.Results[0], want)
 			}
@@ -57,7 +58,7 @@ func (a *An) c14Sender() {
 	}
 	if f := a.MustFn("fragmentData"); f != nil {
 		for _, r := range a.returnsOf(f) {
-			a.TermIs(rule, "fragmentData|slice", "payload of piece i", r, r.Results[0], "$data[fragmentStart($i, $fraglen):fragmentEnd($i, $fraglen, $l)]")
+			a.TermIs(rule, "fragmentData|slice", "payload of piece i", r, r.Results[0], "$data[($i * $fraglen):min((($i + 1) * $fraglen), $l)]")
 		}
 	}
 	// the per-piece payload length and the piece count
